@@ -16,13 +16,44 @@ pub enum Kind {
     Link(String),
 }
 
-#[derive(Clone, Debug, PartialEq, Eq, PartialOrd, Ord, Hash)]
+/// Equality / ordering / hashing deliberately ignore `lk` (the advisory kind a link reports for
+/// its target); comparisons that care about it check it explicitly.
+#[derive(Clone, Debug)]
 pub struct Node {
     pub kind: Kind,
     /// permission bits only (0o7777 mask); links always 0o777
     pub mode: u32,
     pub uid: u32,
     pub gid: u32,
+    /// links only: kind the link reports for its target (0 = unspecified, 1 = file, 2 = dir)
+    pub lk: u8,
+}
+
+impl Node {
+    fn key(&self) -> (&Kind, u32, u32, u32) {
+        (&self.kind, self.mode, self.uid, self.gid)
+    }
+}
+impl PartialEq for Node {
+    fn eq(&self, o: &Node) -> bool {
+        self.key() == o.key()
+    }
+}
+impl Eq for Node {}
+impl std::hash::Hash for Node {
+    fn hash<H: std::hash::Hasher>(&self, h: &mut H) {
+        self.key().hash(h)
+    }
+}
+impl PartialOrd for Node {
+    fn partial_cmp(&self, o: &Node) -> Option<std::cmp::Ordering> {
+        Some(self.cmp(o))
+    }
+}
+impl Ord for Node {
+    fn cmp(&self, o: &Node) -> std::cmp::Ordering {
+        self.key().cmp(&o.key())
+    }
 }
 
 pub const DEF_DIR: u32 = 0o755;
@@ -32,13 +63,13 @@ pub const DEF_ID: u32 = 1000;
 
 impl Node {
     pub fn dir() -> Node {
-        Node { kind: Kind::Dir, mode: DEF_DIR, uid: DEF_ID, gid: DEF_ID }
+        Node { kind: Kind::Dir, mode: DEF_DIR, uid: DEF_ID, gid: DEF_ID, lk: 0 }
     }
     pub fn file(data: &[u8]) -> Node {
-        Node { kind: Kind::File(data.to_vec()), mode: DEF_FILE, uid: DEF_ID, gid: DEF_ID }
+        Node { kind: Kind::File(data.to_vec()), mode: DEF_FILE, uid: DEF_ID, gid: DEF_ID, lk: 0 }
     }
     pub fn link(target: &str) -> Node {
-        Node { kind: Kind::Link(target.to_string()), mode: DEF_LINK, uid: DEF_ID, gid: DEF_ID }
+        Node { kind: Kind::Link(target.to_string()), mode: DEF_LINK, uid: DEF_ID, gid: DEF_ID, lk: 0 }
     }
     pub fn with_mode(mut self, mode: u32) -> Node {
         self.mode = mode;
@@ -193,6 +224,39 @@ impl Tree {
             Kind::Link(t) => t == "/" || self.nodes.get(t).map(|x| !x.is_link()).unwrap_or(false),
             _ => true,
         })
+    }
+    /// kind (1 file / 2 dir / 0 none) reached by following links from p (bounded; cycles -> 0)
+    pub fn resolved_kind(&self, p: &str) -> u8 {
+        let mut cur = p.to_string();
+        for _ in 0..8 {
+            if cur == "/" {
+                return 2;
+            }
+            match self.nodes.get(&cur) {
+                None => return 0,
+                Some(n) => match &n.kind {
+                    Kind::Dir => return 2,
+                    Kind::File(_) => return 1,
+                    Kind::Link(t) => cur = t.clone(),
+                },
+            }
+        }
+        0
+    }
+    /// set every link's `lk` from what it currently resolves to
+    pub fn fix_link_kinds(&mut self) {
+        let keys: Vec<String> = self.nodes.iter().filter(|(_, n)| n.is_link()).map(|(k, _)| k.clone()).collect();
+        for k in keys {
+            let lk = self.resolved_kind(&k);
+            self.nodes.get_mut(&k).unwrap().lk = lk;
+        }
+    }
+    /// equality where a link kind of 0 (unspecified) on either side matches anything
+    pub fn eq_modulo_lk(&self, other: &Tree) -> bool {
+        self.nodes.len() == other.nodes.len()
+            && self.nodes.iter().zip(other.nodes.iter()).all(|((k1, a), (k2, b))| {
+                k1 == k2 && a.kind == b.kind && a.mode == b.mode && a.uid == b.uid && a.gid == b.gid && (a.lk == b.lk || a.lk == 0 || b.lk == 0)
+            })
     }
     pub fn render(&self) -> String {
         let mut s = String::new();
@@ -367,7 +431,7 @@ pub fn materialize_memfs(tree: &Tree, prefix: &str) -> Result<Memfs, String> {
         want_full.nodes.entry(anc.clone()).or_insert_with(Node::dir);
         anc = parent_of(&anc);
     }
-    if got != want_full {
+    if !got.eq_modulo_lk(&want_full) {
         return Err(format!("materialisation mismatch: wanted [{}] got [{}]", want_full.render(), got.render()));
     }
     Ok(fs)
@@ -490,13 +554,18 @@ pub fn observe_disk(root: &str) -> std::io::Result<Tree> {
                 } else {
                     format!("!{}", abs)
                 };
-                t.insert(&k, Node { kind: Kind::Link(tg), mode: md.permissions().mode() & 0o7777, uid, gid });
+                let lk = match std::fs::metadata(&p) {
+                    Ok(m) if m.is_dir() => 2,
+                    Ok(_) => 1,
+                    Err(_) => 0,
+                };
+                t.insert(&k, Node { kind: Kind::Link(tg), mode: md.permissions().mode() & 0o7777, uid, gid, lk });
             } else if ft.is_dir() {
-                t.insert(&k, Node { kind: Kind::Dir, mode: md.permissions().mode() & 0o7777, uid, gid });
+                t.insert(&k, Node { kind: Kind::Dir, mode: md.permissions().mode() & 0o7777, uid, gid, lk: 0 });
                 rec(root, &k, t)?;
             } else {
                 let data = std::fs::read(&p)?;
-                t.insert(&k, Node { kind: Kind::File(data), mode: md.permissions().mode() & 0o7777, uid, gid });
+                t.insert(&k, Node { kind: Kind::File(data), mode: md.permissions().mode() & 0o7777, uid, gid, lk: 0 });
             }
         }
         Ok(())
@@ -519,12 +588,12 @@ pub fn abstract_dump(d: &Dump) -> Result<Tree, String> {
             continue;
         }
         let node = if e.link {
-            Node { kind: Kind::Link(e.alt.clone()), mode: e.mode & 0o7777, uid: e.uid, gid: e.gid }
+            Node { kind: Kind::Link(e.alt.clone()), mode: e.mode & 0o7777, uid: e.uid, gid: e.gid, lk: if e.dir { 2 } else if e.file { 1 } else { 0 } }
         } else if e.dir {
-            Node { kind: Kind::Dir, mode: e.mode & 0o7777, uid: e.uid, gid: e.gid }
+            Node { kind: Kind::Dir, mode: e.mode & 0o7777, uid: e.uid, gid: e.gid, lk: 0 }
         } else if e.file {
             match files.get(e.key.as_str()) {
-                Some(f) => Node { kind: Kind::File(f.data.clone()), mode: e.mode & 0o7777, uid: e.uid, gid: e.gid },
+                Some(f) => Node { kind: Kind::File(f.data.clone()), mode: e.mode & 0o7777, uid: e.uid, gid: e.gid, lk: 0 },
                 None => return Err(format!("file entry {} has no data", e.key)),
             }
         } else {
